@@ -858,7 +858,21 @@ enum Exp {
     Never,
 }
 
+/// `actual` with its result code replaced by the marker where the expectation carries the marker.
+fn mask_unrepresentable_rc(actual: &Ret, e: &Ret) -> Ret {
+    let m = model::RC_UNREPRESENTABLE;
+    let mut a = actual.clone();
+    match (&mut a, e) {
+        (Ret::Res(x), Ret::Res(y)) | (Ret::Cmp(x), Ret::Cmp(y)) | (Ret::Fin(x), Ret::Fin(y)) if y.rc == m => x.rc = m,
+        (Ret::Exop { res: x, .. }, Ret::Exop { res: y, .. }) | (Ret::Search { res: x, .. }, Ret::Search { res: y, .. }) if y.rc == m => x.rc = m,
+        _ => {}
+    }
+    a
+}
+
 fn classify(actual: &Ret, at: u64, e: &Ret, et: u64, fin: bool) -> Option<&'static str> {
+    let masked = mask_unrepresentable_rc(actual, e);
+    let actual = &masked;
     let same = if fin { model::fin_matches(actual, e) } else { actual == e };
     if same {
         if at != et {
@@ -2026,6 +2040,21 @@ pub fn check_c03(sc: &Scenario, rr: &RunResult) -> Vec<Violation> {
     // helper table
     for e in &rr.hist {
         if let EvKind::Helpers { client, step, rc, success, non_error, equal } = &e.kind {
+            // a code the server sent that no u32 holds is none of the documented success codes
+            let sent_wide = sc.clients.get(*client).and_then(|cs| cs.steps.get(*step)).and_then(|st| match st {
+                Step::Op { token, .. } => sc.plan.by_token.get(token),
+                _ => None,
+            }).and_then(|p| match p {
+                ReplyPlan::Single { res, .. } => res.rc_wide,
+                ReplyPlan::Items { done: Some(d), .. } => d.res.rc_wide,
+                _ => None,
+            }).filter(|w| *w > u32::MAX as u64);
+            if let Some(w) = sent_wide {
+                if *success || *non_error || matches!(equal, Some(Some(_))) {
+                    v.push(Violation::new("C03", "C03.helpers", "code-beyond-32-bits-reads-as-success", format!("client {client} step {step}: the server sent result code {w}; the caller saw rc={rc}, success()={success}, non_error()={non_error}, equal()={:?}", equal)));
+                }
+                continue;
+            }
             let is_cmp = equal.is_some();
             let want_non_error = if is_cmp { *rc == 5 || *rc == 6 || *rc == 10 } else { *rc == 0 || *rc == 10 };
             if !is_cmp && *success != (*rc == 0) {
